@@ -105,8 +105,13 @@ def T(data, ref=None, levels=None):
     return CategoricalBox(data, Treatment(ref), levels)
 
 
-def binary(x, success=None):
+@register_stateful_transform
+class Binary:
     """Make a variable binary
+
+    The success level is fixed the first time the transform is called (with the training data)
+    and remembered afterwards, so new data is encoded with the same level even if it does not
+    contain it.
 
     Parameters
     ----------
@@ -122,13 +127,28 @@ def binary(x, success=None):
     x: np.array
         A 0-1 numpy array with shape ``(n, 1)`` where ``n`` is the number of observations.
     """
-    if success is None:
-        categories = sorted(x.unique().tolist())
-        success = categories[0]
-    booleans = x == success
-    if not sum(booleans):
-        raise ValueError(f"No value in 'x' is equal to \"{success}\"")
-    return np.where(booleans, 1, 0)
+
+    __transform_name__ = "binary"
+
+    def __init__(self):
+        self.params_set = False
+        self.success = None
+
+    def __call__(self, x, success=None):
+        if not self.params_set:
+            if success is None:
+                categories = sorted(x.unique().tolist())
+                success = categories[0]
+            if not sum(x == success):
+                raise ValueError(f"No value in 'x' is equal to \"{success}\"")
+            self.success = success
+            self.params_set = True
+        return np.where(x == self.success, 1, 0)
+
+
+def binary(x, success=None):
+    """Make a variable binary. Functional form of :class:`Binary` (no memory)."""
+    return Binary()(x, success)
 
 
 class Proportion:
@@ -428,8 +448,7 @@ class Polynomial:
 
 TRANSFORMS.update(
     {
-        "B": binary,
-        "binary": binary,
+        "B": Binary,
         "C": C,
         "I": I,
         "offset": offset,
